@@ -137,6 +137,12 @@ def main() -> int:
     finally:
         shutil.rmtree(tmp, ignore_errors=True)
 
+    if os.environ.get("VERIF_DUMP_DIGESTS"):
+        with open(os.environ["VERIF_DUMP_DIGESTS"], "w") as f:
+            json.dump({"history": sorted(agg.distinct.get("history", ())),
+                       "nontrivial": sorted(agg.distinct.get("nontrivial", ())),
+                       "counters": {k: v for k, v in sorted(agg.counters.items())},
+                       "violations": sorted(v["violation"]["signature"] + ":" + str(v["run"]) for v in agg.violations)}, f)
     # ------------------------------------------------------------ verdicts
     exit_code = core.EXIT_OK
     by_sig = {}
